@@ -4,7 +4,8 @@ property it stands for (C01/C03/C05/C07/C08/C14, or `model` when it is none of t
 from vlib import *
 import trace_abs
 
-TRACE_PROPS = {"C01", "C03", "C05", "C07", "C08", "C14"}
+TRACE_PROPS = {"C01", "C03", "C04", "C05", "C07", "C08", "C14"}
+INBOUND = {"C04"}
 
 
 def check(ctx, prop, collected):
@@ -13,14 +14,17 @@ def check(ctx, prop, collected):
     if mdrv is None:
         ctx.ties_broken.append("mdrv does not build: " + mlog[-800:]); return []
     lines = []; keep = []
+    inbound = prop in INBOUND
+    cmd = "tracein " if inbound else "trace "
+    model_name = "Model/TraceIn.lean" if inbound else "Model/Trace.lean"
     for seed, s in collected:
         try:
-            toks, skip = trace_abs.abstract(s)
+            toks, skip = trace_abs.abstract_in(s) if inbound else trace_abs.abstract(s)
         except Exception as e:
             import traceback
             ctx.ties_broken.append("correspondence:trace front end raised on scenario seed %s: %s" % (seed, traceback.format_exc()[-400:])); continue
         if skip: ctx.count("trace:skipped"); continue
-        keep.append((seed, s, toks)); lines.append("trace " + " ".join(toks))
+        keep.append((seed, s, toks)); lines.append(cmd + " ".join(toks))
     if not lines: return []
     out, rc, err = run_lines(mdrv, lines)
     rel = []; nev = 0
@@ -28,7 +32,7 @@ def check(ctx, prop, collected):
     for (seed, s, toks), o in zip(keep, out):
         nev += len(toks)
         for t in toks:
-            k = t.split(":")[0] + (":" + t.split(":")[1] if t.startswith(("p:", "a:")) else "")
+            k = t.split(":")[0] + (":" + t.split(":")[1] if t.startswith(("p:", "a:", "P:", "d:")) else "")
             kinds[k] = kinds.get(k, 0) + 1
         if o == "accept": continue
         ws = o.split(" ", 3)
@@ -46,7 +50,7 @@ def check(ctx, prop, collected):
         ctx.ties_broken.append(f"correspondence:trace driver answered {len(out)} of {len(keep)} transcripts (rc={rc}): {err[-300:]}")
     if rel:
         seed, s, toks, idx, reason = rel[0]
-        ctx.ties_broken.append(f"correspondence:composed model (Model/Trace.lean) refuses a transcript of the real client at event {idx} `{toks[idx]}`: {reason} [{len(rel)} transcripts; first: scenario seed {seed}]")
+        ctx.ties_broken.append(f"correspondence:composed model ({model_name}) refuses a transcript of the real client at event {idx} `{toks[idx]}`: {reason} [{len(rel)} transcripts; first: scenario seed {seed}]")
         ctx.notes.append({"trace_refusal": {"scenario_seed": seed, "event_index": idx, "event": toks[idx], "reason": reason,
                                             "events_before": toks[max(0, idx - 40):idx + 1], "script": [l for l, _, _, _ in s.tr]}})
     return rel
